@@ -165,12 +165,13 @@ Inductive agg := AggSum | AggAvg | AggMin | AggMax.
 Definition run_agg (a : agg) (first : dec) (rest : list dec) : dec :=
   match a with AggSum => dsum first rest | AggAvg => davg first rest | AggMin => dmin first rest | AggMax => dmax first rest end.
 
+(** an element of an aggregate's array: a decimal, or whatever
+    convertToDecimalIfNumberAndCheck accepts (any numeric kind, a numeric
+    string, one of these behind a pointer) *)
 Definition elem_number (x : gv) : option dec :=
   match x with
   | VDec d => Some d
-  | VStr false s => string_number s
-  | VFloat false false (FFin d) => Some d
-  | _ => None
+  | _ => let (was, d) := convert_number_check x in if was then Some d else None
   end.
 
 Fixpoint all_some {A} (l : list (option A)) : option (list A) :=
@@ -187,7 +188,7 @@ Definition func_decimal_slice (a : agg) (ps : list rparam) (val : gv) : outcome 
   let new_slc :=
     match val with
     | VSlice EDec _ xs => option_map (fun ds => ds ++ param_numbers) (all_some (map (fun x => match x with VDec d => Some d | _ => None end) xs))
-    | VSlice EAny _ xs => option_map (fun ds => param_numbers ++ ds) (all_some (map elem_number xs))
+    | VSlice _ _ xs | VArray _ xs => option_map (fun ds => param_numbers ++ ds) (all_some (map elem_number xs))
     | _ => Some []
     end in
   match new_slc with
